@@ -1,5 +1,6 @@
--- Root of the `Rtcm` library: model, generated tables, proofs, property theorems.
-import Rtcm.Model.Basic
-import Rtcm.Model.Crc
-import Rtcm.Model.Frame
-import Rtcm.Model.Scan
+-- Root of the `Rtcm` library: model, generated tables, proofs, property theorems, driver.
+import Rtcm.Driver
+import Rtcm.Props.C03
+import Rtcm.Props.C05
+import Rtcm.Props.C06
+import Rtcm.Props.C13
